@@ -12,7 +12,10 @@ from harness.props import parsing
 RULE = ("every string of length <= L over the parser's 27 significant characters (L=4 quick, 5 thorough; "
         "separator inferred; both escape modes), every string of length <= 3 with the separator forced to '.' and '/', "
         "a model-based state cover (breadth-first search over the abstract states of the Lean parser model: one shortest text per "
-        "state, extended by every significant and 19 ordinary/non-ASCII characters, so every (state, character) transition is taken), "
+        "state -- an id that is a keyword name only up to letter case or escaped edge blanks is a state of its own -- extended by every "
+        "significant and 19 ordinary/non-ASCII characters, so every (state, character) transition is taken, and by escape + each of those), "
+        "every search-keyword segment spelling (7 names x lower/upper/mixed case x plain/escaped blank, tab, backslash padding before and "
+        "after the name x inverted x notation x parameters), "
         "the corpus of past failures, and seeded random longer strings mixing those characters, keyword names and "
         "non-ASCII text.  Direct check on the real parser: the outcome is a segment list or a YAMLPathException "
         "(anything else, or a 5 s timeout, is a violation).  Correspondence: the outcome class (segments / YAML Path "
@@ -75,6 +78,15 @@ def run(chk: core.Check, what="class", tier=None):
         for r_ in reps:
             for a in parsing.ALPHABET + parsing.ODD:
                 sc.append((r_ + a, "auto"))
+        # two-symbol extensions whose first symbol is the escape: escape + every significant / odd character
+        # (an escaped blank or tab is part of the segment text, unlike a plain one)
+        for r_ in reps:
+            for a in parsing.ALPHABET + parsing.ODD:
+                sc.append((r_ + "\\" + a, "auto"))
+        # keyword segments in every spelling of the keyword name (letter case, plain / escaped padding)
+        kws = parsing.keyword_segment_texts()
+        chk.extra_cov["keyword_spellings"] = len(kws)
+        sc += [(t, "auto") for t in kws]
         if tier != "quick":
             rng2 = random.Random(chk.seed + 1)
             for r_ in reps:
